@@ -23,7 +23,7 @@ git -C /repo worktree add -q --detach "$W/repo" HEAD || { echo "cannot create wo
 if [ "$patch" != "/dev/null" ]; then
   git -C "$W/repo" apply "$patch" || { echo "patch does not apply"; echo "exit=3"; exit 3; }
 fi
-cp -r /verif/mc "$W/mc"
+cp -r "${MC_SRC:-/verif/mc}" "$W/mc"   # MC_SRC: a frozen copy of the harness (the matrix takes one at its start)
 sed -i "s|^replace github.com/functionx/fx-core/v8 => /repo$|replace github.com/functionx/fx-core/v8 => $W/repo|" "$W/mc/go.mod"
 cp "$W/repo/go.sum" "$W/mc/go.sum"
 mkdir -p "$W/out/.cache" && cp /verif/known_findings.json "$W/out/"
